@@ -74,6 +74,7 @@ pub mod model
     pub static mut SILENT_FAILURES: usize = 0;
 
     // ---- fault / signal injection
+    pub static mut ERR_KIND: u8 = 0;
     pub static mut FAIL_MASK: u32 = 0;
     pub static mut DRAIN: [usize; 32] = [0; 32];
     pub static mut SIGNAL_AT: usize = NONE;
@@ -219,8 +220,28 @@ pub mod io
 {
     use std::fmt;
 
-    /// Opaque I/O error: breadlog only ever formats it into a log line.
+    /// Opaque I/O error: breadlog only ever formats it into a log line (or asks for its kind,
+    /// which is then an arbitrary value chosen by the harness through `model::ERR_KIND`).
     pub struct Error;
+    impl Error
+    {
+        pub fn kind(&self) -> std::io::ErrorKind
+        {
+            match unsafe { super::model::ERR_KIND } % 6
+            {
+                0 => std::io::ErrorKind::Other,
+                1 => std::io::ErrorKind::CrossesDevices,
+                2 => std::io::ErrorKind::NotFound,
+                3 => std::io::ErrorKind::PermissionDenied,
+                4 => std::io::ErrorKind::StorageFull,
+                _ => std::io::ErrorKind::Interrupted,
+            }
+        }
+        pub fn raw_os_error(&self) -> Option<i32>
+        {
+            None
+        }
+    }
     impl fmt::Display for Error
     {
         fn fmt(&self, f: &mut fmt::Formatter<'_>) -> fmt::Result
@@ -497,6 +518,25 @@ pub mod fs
                 T_OPEN = false;
             }
             Ok(())
+        }
+    }
+
+    /// Copying onto an existing path rewrites that file in place (open with O_TRUNC, then write).
+    pub fn copy<P: AsRef<Path>, Q: AsRef<Path>>(_from: P, to: Q) -> io::Result<u64>
+    {
+        unsafe {
+            let (_k, fail) = begin_op();
+            MUTATIONS += 1;
+            let t = path_id(to_str(&to));
+            if t != NONE && t < NSRC
+            {
+                clobber(t);
+            }
+            if fail
+            {
+                return Err(io::Error);
+            }
+            Ok(0)
         }
     }
 
